@@ -434,9 +434,10 @@ fn c08_funding_pack_unpack_backed_adj2_u8() {
 
 //@ prop=C08 tier=quick kind=hold
 //@ enc=IncreasePosition::try_new, IncreasePosition::process_collateral, PositionExt::position_fees, FeeParams::base_position_fees, PositionFees::{total_cost_amount,for_pool,for_receiver}, BaseMarketMutExt::{apply_delta,apply_delta_to_claimable_fee_pool}
-//@ bound=T=u8, DECIMALS=1: every collateral-sum / liquidity / claimable-fee pool value, order-fee factors incl. discount, position, deposit and size delta, any flat index and collateral price, every balance-change kind; borrowing and funding already settled
-//@ stubs=none; hooks: IncreasePosition::verif_process_collateral, verif_with_position. Asserts deposit == d(collateral sum) + d(liquidity) + d(claimable fees) + funding paid for the collateral token and that nothing else moves (same helper as c07_increase_collateral_sum_exact_u8)
+//@ bound=T=u8, DECIMALS=1: every collateral-sum / liquidity / claimable-fee pool value, order-fee factors incl. discount, pending borrowing and funding fees (factors, per-size indices, adjustment), position, deposit and size delta, any flat index and collateral price, every balance-change kind
+//@ stubs=none; hooks: IncreasePosition::verif_process_collateral, verif_with_position. Asserts deposit == d(collateral sum) + d(liquidity) + d(claimable fees) + funding paid for the collateral token and that nothing else moves (same helper as c07_increase_collateral_sum_exact_all_fees_u8)
+//@ timeout=1500
 #[kani::proof]
 fn c08_increase_deposit_split_exact_u8() {
-    crate::c07_open_interest::increase_collateral_sum_exact::<u8, 1>(0);
+    crate::c07_open_interest::increase_collateral_sum_exact::<u8, 1>(2);
 }
